@@ -123,6 +123,11 @@ def run(ctx: Ctx):
             defs.append(r); meta.append((f"pair: {k1} + {k2}", lv, b))
     # fixed valid definitions: poles at the all-zero state (the constructors evaluate the model there as a type check)
     defs.append(raw_of(M.pole_at_zero_definition())); meta.append(("valid", "none", n_base))
+    # readings keyed by Symbol (the project's own idiom), one and two readings per sensor
+    for nr in (1, 2):
+        raw_s = raw_of(M.symbol_keyed_readings_definition(nr))
+        raw_s["reading_keys"] = "symbol"
+        defs.append(raw_s); meta.append(("valid", "none", n_base + nr))
     res = ctx.run_impl_jobs("valid_py.py", defs, key="defs", timeout=3000)
     kinds = {}
     rows = []
@@ -137,6 +142,15 @@ def run(ctx: Ctx):
         def acc(e):
             return r[e] == "accept"
         if kind == "valid":
+            sym_sorted = (raw.get("reading_keys") == "symbol" and any(len(rd) >= 2 for rd in raw["sensors"].values())
+                          and [r[e] for e in ENTRY] == ["accept", "accept", "refuse:TypeError", "accept", "refuse:TypeError"])
+            if sym_sorted:
+                # finding F17 (known_findings.json): exactly this verdict pattern on exactly this kind of definition; the model's
+                # verdict (accept) is not compared for it - the disagreement is the finding
+                ctx.violation("a structurally valid definition whose sensor has two readings keyed by Symbol (the project's own way of keying readings) is refused by "
+                              "python.compile_ekf and cpp.compile_ekf with TypeError: the reading keys are sorted without a key function and sympy refuses to order two symbols",
+                              {"definition": raw, "verdicts": r}, key="valid-refused:two-symbol-keyed-readings")
+                continue
             for e in ENTRY:
                 if not acc(e):
                     ctx.violation(f"a structurally valid definition is refused by {e}: {r[e]}", {"definition": raw, "verdicts": r}, key=f"valid-refused:{e}")
